@@ -355,6 +355,18 @@ pub fn run(prop: &str, thorough: bool, seed: u64, rep: &mut Report) {
             }
         }
     }
+    if matches!(prop, "C05" | "C02" | "C01") {
+        // deep (not huge) nesting: volumes and spans of every ancestor when 1..130 fragments are open at once
+        // (arrays, objects, alternating, with siblings after the deep part) -- bookkeeping that is exact for
+        // shallow documents must stay exact when a fixed-size table or a small counter would run out
+        rep.checks.push(format!("{}: nesting 1..130 deep: value and code map (spans, volumes of every ancestor) == reference", prop));
+        for d in (1usize..=40).chain([47, 48, 49, 63, 64, 65, 66, 100, 127, 128, 129, 130]) {
+            let mut a = String::new(); for _ in 0..d { a.push('['); } a.push('1'); for _ in 0..d { a.push_str(",2]"); }
+            let mut o = String::new(); for _ in 0..d { o.push_str("{\"k\":"); } o.push_str("null"); for _ in 0..d { o.push_str(",\"j\":0}"); }
+            let mut m = String::new(); for i in 0..d { m.push_str(if i % 2 == 0 { "[" } else { "{\"k\": " }); } m.push_str("\"x\""); for i in (0..d).rev() { m.push_str(if i % 2 == 0 { " ]" } else { "}" }); }
+            for doc in [a, o, m] { check_text(prop, &doc, rep); }
+        }
+    }
     if prop == "C02" {
         // objects with duplicated keys: every assignment of up to N members to the keys a/b/c,
         // values numbered in source order; lookups must be the linear scan (check_lookups)
